@@ -83,6 +83,7 @@ type vReq struct {
 	norelay  bool
 	sid      string // session id sent on the wire (default: the request name)
 	wireload string // self-reported count sent on the wire when it is not the step's number
+	rejectable bool // proxy poll with a relay pattern the broker must refuse
 }
 
 type vRig struct {
@@ -124,8 +125,22 @@ func vGeoip(name string) string {
 	if d := os.Getenv("VERIF_GEOIP"); d != "" {
 		return d + "/" + name
 	}
+	// this file is compiled as <repository>/broker/rig_verif_test.go (overlay)
+	if _, file, _, ok := runtime.Caller(0); ok {
+		if i := strings.LastIndex(file, "/"); i >= 0 {
+			if _, err := os.Stat(file[:i] + "/" + name); err == nil {
+				return file[:i] + "/" + name
+			}
+		}
+	}
 	return name
 }
+
+// The broker's allowed relay pattern, patterns a proxy may announce that cover it, and patterns that do not.
+const vRigAllowed = "snowflake.torproject.net$"
+
+var vAcceptedPatterns = []string{"snowflake.torproject.net$", "torproject.net$", "$", ".torproject.net$", "net$"}
+var vRejectedPatterns = []string{"example.com$", "^snowflake.torproject.net$", "x.snowflake.torproject.net$", "^torproject.net$", "flake.torproject.org$"}
 
 func vNewRig() *vRig {
 	r := &vRig{}
@@ -149,7 +164,7 @@ func (r *vRig) newContext(bridges []string) {
 		}
 	}
 	// the operator's list replaces the built-in default list of NewBrokerContext
-	if err := r.ctx.InstallBridgeListProfile(strings.NewReader(list), "", ""); err != nil {
+	if err := r.ctx.InstallBridgeListProfile(strings.NewReader(list), vRigAllowed, vRigAllowed); err != nil {
 		panic(err)
 	}
 	// the GeoIP tables shipped with the broker's own tests (the test runs in the package directory)
@@ -331,11 +346,13 @@ func (r *vRig) hook(point string, args ...interface{}) {
 		ev["locked"] = r.probe()
 		r.mu.Lock()
 		ev["addr"], ev["relayext"], ev["loadwire"], ev["natwire"] = "?", true, 0, args[1]
+		ev["rejectable"] = false
 		ev["t"] = int(time.Since(r.jstart) / time.Millisecond)
 		if q := r.reqs[ev["p"].(string)]; q != nil {
 			// what the proxy actually reported on the wire (the count as its order-preserving abstraction)
 			ev["addr"], ev["relayext"], ev["loadwire"], ev["natwire"] = q.addr, !q.norelay, q.load, q.nat
 			ev["cc"] = r.cc[q.addr]
+			ev["rejectable"] = q.rejectable
 		}
 		if ev["cc"] == nil || ev["cc"] == "" {
 			ev["cc"] = "??"
@@ -509,7 +526,11 @@ func (r *vRig) doProxy(q *vReq, sc *vScenario) vEvent {
 	if q.norelay {
 		m["Version"] = "1.2"
 	} else {
-		m["AcceptedRelayPattern"] = ""
+		m["AcceptedRelayPattern"] = vAcceptedPatterns[int(r.sc+len(q.name))%len(vAcceptedPatterns)]
+	}
+	if q.rejectable {
+		m["Version"] = "1.3"
+		m["AcceptedRelayPattern"] = vRejectedPatterns[int(r.sc+len(q.sid))%len(vRejectedPatterns)]
 	}
 	body, err = json.Marshal(m)
 	if err != nil {
@@ -522,7 +543,7 @@ func (r *vRig) doProxy(q *vReq, sc *vScenario) vEvent {
 	}
 	w := httptest.NewRecorder()
 	SnowflakeHandler{r.ipc, proxyPolls}.ServeHTTP(w, req)
-	ev := vEvent{"ev": "p.resp", "p": q.name, "client": "", "nat": "", "relay": ""}
+	ev := vEvent{"ev": "p.resp", "p": q.name, "client": "", "nat": "", "relay": "", "refused": false, "rejectable": q.rejectable, "natwire": q.nat, "ptype": ptype}
 	if w.Code != 200 {
 		ev["kind"] = fmt.Sprintf("http%d", w.Code)
 		return ev
@@ -530,7 +551,9 @@ func (r *vRig) doProxy(q *vReq, sc *vScenario) vEvent {
 	offer, nat, relay, err := messages.DecodePollResponseWithRelayURL(w.Body.Bytes())
 	switch {
 	case err != nil:
-		ev["kind"] = "status:" + err.Error()
+		// a well-formed response whose status is neither "client match" nor "no match"
+		ev["kind"], ev["refused"] = "rejected", true
+		ev["status"] = err.Error()
 	case offer == "":
 		ev["kind"] = "nomatch"
 	default:
@@ -691,6 +714,9 @@ func vWireSid(name string, similar bool) string {
 
 func (r *vRig) reqFromStep(st []interface{}, sc *vScenario) *vReq {
 	switch vStr(st[0]) {
+	case "ProxyRejected":
+		// a poll whose accepted relay pattern does not cover the broker's allowed pattern
+		return &vReq{kind: "proxy", name: vStr(st[1]), nat: "unknown", rejectable: true, sid: vWireSid(vStr(st[1]), sc.SimilarSids)}
 	case "ProxyRegister":
 		q := &vReq{kind: "proxy", name: vStr(st[1]), nat: vStr(st[2]), load: vInt(st[3]), norelay: sc.NoRelayExt[vStr(st[1])]}
 		q.addr = sc.Addr[q.name]
@@ -781,7 +807,7 @@ func (r *vRig) runSteps(sc *vScenario) {
 			break
 		}
 		switch vStr(st[0]) {
-		case "ProxyRegister", "ClientMatch", "AnswerLookup":
+		case "ProxyRegister", "ProxyRejected", "ClientMatch", "AnswerLookup":
 			r.start(r.reqFromStep(st, sc), sc)
 			synctest.Wait()
 		case "Barrier":
@@ -1003,7 +1029,7 @@ func (r *vRig) runScenario(t *testing.T, sc *vScenario) (events []vEvent, hung b
 		}
 		for _, x := range items {
 			it := x.([]interface{})
-			if vStr(it[0]) == "ProxyRegister" {
+			if vStr(it[0]) == "ProxyRegister" || vStr(it[0]) == "ProxyRejected" {
 				if sid := vWireSid(vStr(it[1]), sc.SimilarSids); r.sidName[sid] == "" {
 					r.sidName[sid] = vStr(it[1])
 				}
